@@ -493,7 +493,7 @@ pub fn run(tier: Tier) -> i32 {
                 }
             }
         }
-        sl.bound = format!("real server under the yield-point scheduler: each of {} request kinds is stopped at the first cancellation checkpoint of its analysis, then the client sends a didChange: the edit must pass the document store (cancel, not wait), the request is answered exactly once, the canary is answered; kinds: {names:?}", names.len());
+        sl.bound = format!("real server under the yield-point scheduler: each of 11 request kinds x 3 stages of its task (not started, started but before its store read, stopped at the first cancellation checkpoint of its analysis), then the client sends a didChange: the edit must pass the document store (cancel, not wait), the request is answered exactly once with an error or the answer for its version, the canary is answered; {} probes: {names:?}", names.len());
         rep.layer(sl);
     } else {
         rep.machinery("server binary not built (needed for the server-level layer)");
